@@ -31,6 +31,11 @@ MUT = [
  ("C16", "qkeras/qtools/quantized_operators/multiplier_impl.py", "    self.output.int_bits = self.input.int_bits + self.weights.int_bits", "    self.output.int_bits = max(self.input.int_bits, self.weights.int_bits)", "qbits_x_qbits"),
  ("C17", "qkeras/qtools/quantized_operators/accumulator_impl.py", "    self.log_add_ops = int(np.ceil(np.log2(add_ops)))", "    self.log_add_ops = int(np.floor(np.log2(add_ops)))", "qbits_rank2"),
  ("C17", "qkeras/qtools/quantized_operators/adder_impl.py", "    fractional_bits = max(fractional_bits1, fractional_bits2)", "    fractional_bits = min(fractional_bits1, fractional_bits2)", "qbits_plus_qbits"),
+ ("C04", "qkeras/quantizers.py", "    k_sign += (1.0 - tf.abs(k_sign))\n    if self.use_01:", "    if self.use_01:", "binary.__call__"),
+ ("C04", "qkeras/quantizers.py", "      q = K.cast(tf.abs(x) >= thres, K.floatx()) * tf.sign(x)\n\n    # ternary ranges", "      q = K.cast(tf.abs(x) > thres, K.floatx()) * tf.sign(x)\n\n    # ternary ranges", "ternary.__call__/alpha-"),
+ ("C04", "qkeras/quantizers.py", "    qx = K.mean(tf.math.multiply(x, q), axis=axis, keepdims=True)\n    qq = K.mean(tf.math.multiply(q, q), axis=axis, keepdims=True)\n  return qx, qq", "    qx = K.mean(tf.math.multiply(x, q), axis=axis[:-1], keepdims=True)\n    qq = K.mean(tf.math.multiply(q, q), axis=axis[:-1], keepdims=True)\n  return qx, qq", "rank4"),
+ ("C04", "qkeras/quantizers.py", "  scale = K.clip(scale, min_value=min_po2, max_value=max_po2)\n  return scale", "  scale = K.clip(scale, min_value=max_po2, max_value=min_po2)\n  return scale", "bounded"),
+ ("C04", "qkeras/quantizers.py", "    scale = qx / (qq + K.epsilon())\n    if alpha == \"auto_po2\":", "    scale = qx / (qq + 1.0)\n    if alpha == \"auto_po2\":", "binary.__call__/alpha-auto"),
  ("C13", "qkeras/utils.py", '  custom_objects["QGRU"] = QGRU\n', '', "class_QGRU"),
  ("C13", "qkeras/utils.py", "  qmodel.set_weights(model.get_weights())\n", "", "clone_model"),
  ("C13", "qkeras/qlayers.py", '        "kernel_quantizer": constraints.serialize(\n            self.kernel_quantizer_internal# Google internal code, commented out by copybara\n        ),\n        "bias_quantizer": constraints.serialize(\n            self.bias_quantizer_internal# Google internal code, commented out by copybara\n        ),\n        "kernel_initializer"', '        "bias_quantizer": constraints.serialize(\n            self.bias_quantizer_internal# Google internal code, commented out by copybara\n        ),\n        "kernel_initializer"', "QDense"),
